@@ -246,10 +246,21 @@ TaggedResponses == CASE TagLayout = 0 -> <<>>
 DesignedStatus == LET hits == {k \in DOMAIN TaggedResponses : TagMatch(TaggedResponses[k][2])} IN
                   IF hits = {} THEN 200 ELSE TaggedResponses[CHOOSE k \in hits : \A m \in hits : k <= m][1]
 TagHit == DesignedStatus # 200
+\*   response.tagged_header_unguarded   inside a TAGGED response the encoder writes every header without its nil check (and
+\*                                  without the default initialisation): when that response is the one selected, a result
+\*                                  attribute mapped to a header that is a pointer field (a primitive, directly or through an
+\*                                  alias, optional in the result type: modes optional / treq) and that the service left unset
+\*                                  is dereferenced - the server crashes before WriteHeader (500, nothing returned).  Lists and
+\*                                  Bytes (nil-able, not pointers), defaulted and required attributes (not pointers), cookies
+\*                                  (their partial keeps its checks) and the tagless response are not affected.
+UnguardedHeader(j) == /\ cfg.ra[j].loc = "header" /\ cfg.ra[j].nest \in {"direct", "alias"} /\ cfg.ra[j].kind \notin {"bytes", "any"}
+                      /\ cfg.ra[j].mode \in {"optional", "treq"} /\ rv[j] = Absent
+TaggedHeaderCrash == Dev("response.tagged_header_unguarded") /\ TagHit /\ \E j \in RIdx : UnguardedHeader(j)
 ServerEncode ==
   /\ pc = "respond"
-  /\ status' = DesignedStatus
-  /\ rwire' \in WiresOf(cfg.ra, rv)
+  /\ IF TaggedHeaderCrash
+     THEN status' = 500 /\ rwire' = [j \in RIdx |-> [loc |-> "none", v |-> Absent]]
+     ELSE status' = DesignedStatus /\ rwire' \in WiresOf(cfg.ra, rv)
   /\ pc' = "cswitch"
   /\ UNCHANGED <<cfg, pv, rv, wire, delivered, invoked, errname, returned, cerr>>
 ClientSwitch ==
